@@ -4,8 +4,8 @@
    prefix in P, and k is its term id; `make_term full k n` builds the (minimal or full) term from the
    node alone; the graph is built by a C01/C02 factory from the extracted edges, the ontology is the
    C06 container.  Scope: well-formed documents (ASCII ids, alternate ids / xrefs that are CURIEs). *)
-From Coq Require Import String List Bool Arith ZArith Permutation.
-From Hpotk Require Import Base.Result Base.Str TermId.Model Graph.Model Ontology.Model Obographs.Model Obographs.Proofs Obographs.Version.
+From Coq Require Import String Ascii List Bool Arith ZArith Permutation.
+From Hpotk Require Import Base.Result Base.Str TermId.Model Graph.Model Ontology.Model Obographs.Model Obographs.Proofs Obographs.Version Obographs.Purl.
 Import ListNotations.
 
 (* the current terms are exactly the non-deprecated CLASS nodes with an OBO PURL identifier in a
@@ -83,3 +83,13 @@ Proof. exact version_bpv_spec. Qed.
 
 Theorem C05_version_absent : forall (m : gmeta), gm_version m = None -> gm_bpvs m = None -> version_of m = None.
 Proof. exact version_absent. Qed.
+
+(* which identifiers count as OBO PURLs, and what their CURIE is (PURL_PATTERN.match): the text starts with the OBO PURL
+   prefix, the CURIE is the maximal run of word characters behind it, and that run has an underscore with at least one
+   character on each side; whatever follows the run is ignored, an identifier that merely CONTAINS or ENDS with such
+   text is not an OBO PURL *)
+Theorem C05_curie_of_purl : forall (p c : string),
+  purl_curie p = Some c <->
+  exists rest, p = (purl_prefix ++ c ++ rest)%string /\ all_word c = true /\ starts_nonword rest = true /\
+               exists a b, c = (a ++ String "_"%char b)%string /\ a <> EmptyString /\ b <> EmptyString.
+Proof. exact purl_curie_spec. Qed.
